@@ -5,7 +5,8 @@
      and PoolMap leave the entry untouched;
    - inserting a new key places the entry before the given position;
    - equality is equality of the entry sequences (order-sensitive; keys only for the set);
-   - a returned iterator is observed as rank:key:value of the entry it designates. *)
+   - a returned iterator is observed as rank:key:value of the entry it designates;
+   - iterating forwards visits the entries in sequence order, iterating backwards in the reverse order. *)
 From Coq Require Import ZArith List Bool Arith.
 From Common Require Import ListAux.
 From Hash Require Import HashBase.
@@ -115,6 +116,9 @@ Definition spec_step (kd : kind) (st : list omap) (o : op K) : list omap * res K
   | OSetVal x k v =>
       s_with st x (fun l => if s_has l k then let l' := s_set l k v in (l', RIter (s_find l' k))
                             else (l, RIter None))
+  (* iteration order, forwards; and backwards = the same sequence reversed *)
+  | OIterFwd x => s_with st x (fun l => (l, RWalk (Some l)))
+  | OIterBack x => s_with st x (fun l => (l, RWalk (Some (rev l))))
   end.
 
 Definition s_obs (l : omap) : tobs K := (Z.of_nat (length l), is_nil l, l).
